@@ -380,3 +380,60 @@ Definition entbox_sr (bs : list N) : res (entval * Z * bool) :=
       else Err
   | (Err, _) => Err | (Panic, _) => Panic | (OutOfFuel, _) => OutOfFuel
   end.
+
+(* ------------------------------------------------------------------ the ENCODER pairs that are written twice: mdat, stsd, sample entry *)
+(* (TrunBox.Encode and SencBox.Encode call their own EncodeSW on a private slice writer: no second text.)
+   io.Writer never fails and the slice writer is large enough, as in C03Model.v. *)
+From V.c03 Require Import C03Model.
+
+(* EncodeHeaderWithSize(boxType, boxSize, largeSize, w) *)
+Definition enc_header_size_w (name : list N) (size : N) (large : bool) : res (list N) :=
+  if negb large && (4294967296 <=? size) then Err
+  else if negb large then Ok (be4 size ++ name) else Ok (be4 1 ++ name ++ be8 size).
+(* EncodeHeaderWithSizeSW(boxType, boxSize, largeSize, sw) *)
+Definition enc_header_size_sw (name : list N) (size : N) (large : bool) : res (list N) :=
+  if negb large && (4294967296 <=? size) then Err
+  else if negb large then Ok (be4 size ++ name) else Ok (be4 1 ++ name ++ be8 size).
+
+(* MdatBox.Encode: EncodeHeaderWithSize("mdat", m.Size(), m.LargeSize, w) - Size() sets LargeSize for a payload above
+   maxNormalPayloadSize before the flag is read - then w.Write(m.Data) (DataParts: output-side only, not reachable by decoding) *)
+Definition mdat_enc_w (m : mdatv) : res (list N) :=
+  let large := md_large m || (max_normal_payload <? lenN (md_data m)) in
+  do hd <- enc_header_size_w name_mdat (mdatv_size m) large; Ok (hd ++ md_data m).
+(* MdatBox.EncodeSW *)
+Definition mdat_enc_sw (m : mdatv) : res (list N) :=
+  let large := md_large m || (max_normal_payload <? lenN (md_data m)) in
+  do hd <- enc_header_size_sw name_mdat (mdatv_size m) large; Ok (hd ++ md_data m).
+
+(* StsdBox.Encode: EncodeHeader, binary.Write(versionAndFlags), binary.Write(SampleCount), every child's Encode(w);
+   size = s.Size(); children as encodable boxes (C03Model.ebox) *)
+Definition stsd_enc_w (version flags count size : N) (kids : list ebox) : res (list N) :=
+  do hd <- enc_header_w name_stsd size;
+  do rest <- enc_list enc_w kids;
+  Ok (hd ++ be4 ((version * 16777216 + flags) mod 4294967296) ++ be4 (count mod 4294967296) ++ rest).
+(* StsdBox.EncodeSW: EncodeHeaderSW, sw.WriteUint32 x2, every child's EncodeSW(sw) *)
+Definition stsd_enc_sw (version flags count size : N) (kids : list ebox) : res (list N) :=
+  do hd <- enc_header_sw name_stsd size;
+  do rest <- enc_list enc_sw kids;
+  Ok (hd ++ be4 ((version * 16777216 + flags) mod 4294967296) ++ be4 (count mod 4294967296) ++ rest).
+
+Definition be2 (n : N) : list N := [(n / 256) mod 256; n mod 256].
+(* the 78 bytes both sample-entry encoders write after the header (compressor name of at most 31 bytes: every decoded box) *)
+Definition vse_fixed_w (v : vse) : list N :=
+  repeat 0 6 ++ be2 (vs_dri v) ++ repeat 0 16 ++ be2 (vs_width v) ++ be2 (vs_height v) ++ be4 (vs_hres v) ++ be4 (vs_vres v)
+  ++ repeat 0 4 ++ be2 (vs_frames v) ++ [lenN (vs_cname v) mod 256] ++ vs_cname v
+  ++ repeat 0 (N.to_nat ((31 + 256 - lenN (vs_cname v) mod 256) mod 256)) ++ [0; 24] ++ [255; 255].
+Definition vse_fixed_sw (v : vse) : list N :=
+  repeat 0 6 ++ be2 (vs_dri v) ++ repeat 0 16 ++ be2 (vs_width v) ++ be2 (vs_height v) ++ be4 (vs_hres v) ++ be4 (vs_vres v)
+  ++ repeat 0 4 ++ be2 (vs_frames v) ++ [lenN (vs_cname v) mod 256] ++ vs_cname v
+  ++ repeat 0 (N.to_nat ((31 + 256 - lenN (vs_cname v) mod 256) mod 256)) ++ [0; 24] ++ [255; 255].
+(* VisualSampleEntryBox.Encode: EncodeHeader, the fixed part through a private slice writer over makebuf(b), children Encode(w) *)
+Definition vse_enc_w (name : list N) (v : vse) (size : N) (kids : list ebox) : res (list N) :=
+  do hd <- enc_header_w name size;
+  do rest <- enc_list enc_w kids;
+  Ok (hd ++ vse_fixed_w v ++ rest).
+(* VisualSampleEntryBox.EncodeSW *)
+Definition vse_enc_sw (name : list N) (v : vse) (size : N) (kids : list ebox) : res (list N) :=
+  do hd <- enc_header_sw name size;
+  do rest <- enc_list enc_sw kids;
+  Ok (hd ++ vse_fixed_sw v ++ rest).
